@@ -79,7 +79,7 @@ if TYPE_CHECKING:
     from .file import _GitFile
 
 from .errors import PackedRefsException, RefFormatError
-from .file import GitFile, ensure_dir_exists
+from .file import FileLocked, GitFile, ensure_dir_exists
 from .objects import ZERO_SHA, ObjectID, git_line, valid_hexsha
 
 Ref = NewType("Ref", bytes)
@@ -1049,6 +1049,18 @@ class DiskRefsContainer(RefsContainer):
           new_refs: A mapping of ref names to targets; if a target is None that
             means remove the ref
         """
+        self._add_packed_refs(new_refs, verify=False)
+
+    def _add_packed_refs(
+        self, new_refs: Mapping[Ref, ObjectID | None], verify: bool
+    ) -> None:
+        """Write refs to packed-refs, then remove the loose refs they supersede.
+
+        Args:
+          new_refs: A mapping of ref names to targets; if a target is None that
+            means remove the ref
+          verify: Only remove a loose ref if it still holds the packed value
+        """
         if not new_refs:
             return
 
@@ -1064,12 +1076,6 @@ class DiskRefsContainer(RefsContainer):
                     if ref == HEADREF:
                         raise ValueError("cannot pack HEAD")
 
-                    # remove any loose refs pointing to this one -- please
-                    # note that this bypasses remove_if_equals as we don't
-                    # want to affect packed refs in here
-                    with suppress(OSError):
-                        os.remove(self.refpath(ref))
-
                     if target is not None:
                         packed_refs[ref] = target
                     else:
@@ -1082,6 +1088,35 @@ class DiskRefsContainer(RefsContainer):
             # lock is released but before the stat. Reload on the next access
             # instead.
             self._invalidate_packed_refs_cache()
+
+        # Only now that the new packed-refs file is in place, remove the
+        # loose refs it supersedes -- please note that this bypasses
+        # remove_if_equals as we don't want to affect packed refs in here
+        for ref, target in new_refs.items():
+            self._prune_loose_ref(ref, target if verify else None)
+
+    def _prune_loose_ref(self, name: Ref, expected: ObjectID | None) -> None:
+        """Remove a loose ref that has been superseded by packed-refs.
+
+        The ref is locked and re-read first, so that a concurrent update
+        which made it differ from the packed value is not lost.
+
+        Args:
+          name: Name of the loose ref to remove
+          expected: The value that was packed; None to remove unconditionally
+        """
+        filename = self.refpath(name)
+        try:
+            f = GitFile(filename, "wb")
+        except (OSError, FileLocked):
+            # no directory for the loose ref, or it is being updated right now
+            return
+        try:
+            if expected is None or self.read_loose_ref(name) == expected:
+                with suppress(OSError):
+                    os.remove(filename)
+        finally:
+            f.abort()
 
     def get_peeled(self, name: Ref) -> ObjectID | None:
         """Return the cached peeled value of a ref, if available.
@@ -1464,7 +1499,8 @@ class DiskRefsContainer(RefsContainer):
                     pass
 
         if refs_to_pack:
-            self.add_packed_refs(refs_to_pack)
+            # A ref updated since its value was read above keeps its loose file
+            self._add_packed_refs(refs_to_pack, verify=True)
 
 
 def _split_ref_line(line: bytes) -> tuple[ObjectID, Ref]:
